@@ -11,7 +11,7 @@ undo() { git -C "$R" checkout -- . ; }
 trap undo EXIT
 git -C "$R" apply "$PATCH" || { echo "patch does not apply" >&2; exit 2; }
 for id in $IDS; do
-  out="$(VERIF_STALL_S=${VERIF_STALL_S:-15} ./check "$id" ${TIER:-quick} 2>&1)"; code=$?
+  out="$(VERIF_WALL_CAP_S=${VERIF_WALL_CAP_S:-150} VERIF_STALL_S=${VERIF_STALL_S:-15} ./check "$id" ${TIER:-quick} 2>&1)"; code=$?
   case $code in
     0) echo "$id ok" ;;
     1) echo "$id VIOLATION :: $(echo "$out" | grep -m1 -A1 '^VIOLATION' | tail -1 | cut -c1-260)" ;;
